@@ -56,17 +56,18 @@ Definition mesh_support_idx (kv : list Qc) (p j : nat) : nat * nat :=
   let supp := support_idx p j in
   (nth (fst supp) k2m 0%nat, nth (snd supp) k2m 0%nat).
 
-(* startend = np.stack((np.arange(0,n), np.arange(p+1, n+p+1)), axis=1); k2m[startend] *)
+(* n = self.numdofs
+   startend = np.stack((np.arange(0,n), np.arange(self.p+1, n+self.p+1)), axis=1)
+   return self._knots_to_mesh[startend] *)
 Definition mesh_support_idx_all (kv : list Qc) (p : nat) : list (nat * nat) :=
-  let k2m := knots_to_mesh kv in
   let n := numdofs kv p in
-  let startend := combine (seq 0 n) (seq (p + 1) n) in
-  map (fun se => (nth (fst se) k2m 0%nat, nth (snd se) k2m 0%nat)) startend.
+  let startend := np_stack2 (np_arange_nat 0 n) (np_arange_nat (p + 1) (n + p + 1)) in
+  np_take2 (knots_to_mesh kv) startend.
 
-(* np.where(k2m[1:] != k2m[:-1])[0] *)
+(* k2m = self._knots_to_mesh;  np.where(k2m[1:] != k2m[:-1])[0] *)
 Definition mesh_span_indices (kv : list Qc) : list nat :=
   let k2m := knots_to_mesh kv in
-  filter (fun i => negb (Nat.eqb (nth (S i) k2m 0%nat) (nth i k2m 0%nat))) (seq 0 (length k2m - 1)).
+  np_where_ne (sl_from1 k2m) (sl_to_m1 k2m).
 
 (* findspan: Bsp.findspan kv p u;  first_active k = k - p (Python int) *)
 Definition first_active (p : nat) (k : nat) : Z := (Z.of_nat k - Z.of_nat p)%Z.
